@@ -29,7 +29,8 @@ RULE = (
     "{0,1e-3,0.1}, mass lumping on/off, labels +-1 or none; the library is driven through setCurrentArea + "
     "build_R_matrix/calculate_B/solve_density_estimation or (1 in 4) through StandardCombi.perform_operation, all "
     "component grids of the scheme checked. dimwise: per-dimension dyadic refinement trees (uniform level 1..3, then "
-    "bisect drawn intervals, smallest interval 2^-8) give non-uniform stripes; boundary points off (on: 1 in 6), "
+    "bisect drawn intervals, smallest interval 2^-8) give non-uniform stripes; boundary points on in 1 of 6 small "
+    "grids and in 1 of 3 of the grids aiming at >= 200 basis functions (class boundary=True&grid>=200), "
     "analytic or numeric entries (numeric: 1 in 12 quick / 1 in 6 thorough, <= 9 points, d <= 2), R cache on/off, one or "
     "two grids per operation object (state carry-over); driven through build_R_matrix_dimension_wise / "
     "calculate_B_dimension_wise / calculate_operation_dimension_wise. sasd: a real SpatiallyAdaptiveSingleDimensions2 "
@@ -37,9 +38,11 @@ RULE = (
     "max_evaluations); every calculate_operation_dimension_wise call is observed and its surpluses compared with the "
     "oracle for the stripes it was given; one third of the cases use reuse_old_values=True with level ranges that "
     "give component grids of >= 200 points (2D lmin 3 lmax 5, 1D lmin 7 lmax 8, thorough also 2D lmin 4 lmax 5), "
-    "100..400 samples and 2..4 complete evaluations, so that from the second evaluation on the right-hand side is "
-    "partly copied from the old vector and partly recomputed through find_data_in_domain (classes reuse=True, "
-    "grid>=200, evaluation>=1-with-reuse-and-grid>=200, b-entries-recomputed-via-find_data_in_domain). hats: hat_function, hat_function_in_support(_vectorized/"
+    "100..400 samples and 2..4 complete evaluations; two of four of these use reuse_old_values=True, so that from the "
+    "second evaluation on the right-hand side is partly copied from the old vector and partly recomputed through "
+    "find_data_in_domain, one of four uses boundary=True (9x33, 17x17 ... basis functions incl. half hats, samples on "
+    "the domain boundary), one of four both (classes reuse=True, grid>=200, boundary=True&grid>=200, "
+    "evaluation>=1-with-reuse-and-grid>=200, b-entries-recomputed-via-find_data_in_domain). hats: hat_function, hat_function_in_support(_vectorized/"
     "_completely_vectorized), hat_function_non_symmetric(_vectorized/_completely_vectorized) against the reference hat "
     "and pairwise, all hats of a level vector or of tree stripes, at points on grid lines, on support ends, on the domain "
     "boundary and inside cells. Non-trivial: uniform = d>=2, anisotropic level vector, >=1 sample coordinate exactly on "
@@ -709,6 +712,8 @@ def run_dimwise(case):
         if any(len(set(np.diff(s).tolist())) > 1 for s in stripes):
             nonuniform = True
         out.cls("N>=200" if N >= 200 else "N<200")
+        if boundary and N >= 200:
+            out.cls("boundary=True&grid>=200")
     out.nontrivial = nonuniform and nline >= 1
     out.cls("d=%d" % d, "lump" if lump else "full", "lam=%g" % lam, "labels" if classes is not None else "no-labels",
             "boundary" if boundary else "no-boundary", "numeric" if numeric else "analytic",
@@ -729,8 +734,9 @@ def dimwise_strategy(tier):
     def s(draw):
         d = draw(st.integers(1, 3))
         numeric = draw(st.sampled_from([False] * (11 if tier == "quick" else 5) + [True]))
-        boundary = draw(st.sampled_from([False] * 5 + [True]))
-        big = (not numeric) and draw(st.sampled_from([False] * 6 + [True]))       # aim at the N >= 200 path
+        big = (not numeric) and draw(st.sampled_from([False] * 5 + [True]))       # aim at the N >= 200 path
+        # boundary points: 1 in 6 of the small grids, 1 in 3 of the grids aiming at >= 200 basis functions
+        boundary = draw(st.sampled_from([False, False, True] if big else [False] * 5 + [True]))
         if numeric:
             d = min(d, 2)
         ngrids = 1 if numeric else draw(st.sampled_from([1, 1, 2]))
@@ -872,12 +878,14 @@ def run_sasd(case):
             raise
     nline = 0
     nonuniform = 0
-    big = reused_big = recomputed = 0
+    big = reused_big = recomputed = boundary_big = 0
     for k, (stripes, levels, lv, al, Robs, Bobs, st_) in enumerate(calls):
         tag = "call %d evaluation %d levelvec=%s reuse=%s old-b-key=%d find_data_in_domain=%d stripes=%s" % (
             k, st_["evaluation"], lv, reuse, st_["key_found"], st_["find_data"], stripes)
         if al.size >= 200:
             big += 1
+            if boundary:
+                boundary_big += 1
             if reuse and st_["evaluation"] >= 1:
                 reused_big += 1
         if st_["key_found"] and st_["find_data"]:
@@ -901,11 +909,14 @@ def run_sasd(case):
         out.cls("non-uniform-grid-solved")
     if big:
         out.cls("grid>=200")
+    if boundary_big:
+        out.cls("boundary=True&grid>=200")
     if reused_big:
         out.cls("evaluation>=1-with-reuse-and-grid>=200")
     if recomputed:
         out.cls("b-entries-recomputed-via-find_data_in_domain")     # old b found AND entries recomputed from the data bins
     info["max_evaluations_done"] = state["evaluation"]
+    info["max_solves_boundary_grid>=200"] = boundary_big
     info["max_solves_reuse_grid>=200"] = reused_big
     info["max_solves_with_recomputed_b"] = recomputed
     info["max_solves"] = len(calls)
@@ -934,38 +945,64 @@ def sasd_strategy(tier):
         return case
 
     @st.composite
-    def reuse_case(draw):
-        """reuse_old_values=True with component grids of >= 200 points and 2..4 complete evaluations: from the second
-        evaluation on calculate_B_dimension_wise copies the old b and recomputes the rest through find_data_in_domain.
-        Mass lumping keeps the run cheap (the cached dense R build costs ~10 s per grid); thorough also runs dense R."""
+    def big_case(draw):
+        """component grids with >= 200 basis functions and 2..4 complete evaluations, in two flavours:
+        'reuse'    reuse_old_values=True, no boundary points: from the second evaluation on calculate_B_dimension_wise
+                   copies the old b and recomputes the rest through find_data_in_domain;
+        'boundary' boundary=True (9x33, 17x17, 33x9 ... points), reuse off, samples on the domain boundary included: the
+                   per-sample branch of calculate_B_dimension_wise with boundary hats;
+        'reuse+boundary' both: the copy step must identify a hat by grid point AND domain (a boundary half hat and the
+                   interior hat next to it can share a domain when the old grid is a different component grid).
+        Mass lumping keeps the reuse runs cheap (the cached dense R build costs ~10 s per grid)."""
+        flavour = draw(st.sampled_from(["reuse", "reuse", "boundary", "reuse+boundary"]))
         shape = draw(st.sampled_from(["2d", "2d", "2d", "1d"] if tier == "quick" else ["2d", "2d", "1d", "2d-fine"]))
+        if "boundary" in flavour and shape == "2d-fine":
+            shape = "2d"
         d, lmin, lmax = {"2d": (2, 3, 5), "1d": (1, 7, 8), "2d-fine": (2, 4, 5)}[shape]
         errors = [draw(st.sampled_from([0.0, 0.0, 0.0, 0.5, 1.0])) for _ in range(draw(st.integers(3, 12)))]
         errors[draw(st.integers(0, len(errors) - 1))] = 1.0          # never "all equal" (= refine everything)
-        case = dict(d=d, lmin=lmin, lmax=lmax, boundary=False, reuse=True,
+        if "reuse" in flavour:
+            lump = True if (tier == "quick" or shape == "2d-fine") else draw(st.sampled_from([True, True, True, False]))
+        else:
+            lump = draw(st.sampled_from([True, False]))
+        case = dict(d=d, lmin=lmin, lmax=lmax, boundary="boundary" in flavour, reuse="reuse" in flavour,
                     steps=draw(st.sampled_from([2, 3, 3] if tier == "quick" else [2, 3, 4])),
-                    lam=draw(st.sampled_from(LAMBDAS)),
-                    lump=True if (tier == "quick" or shape == "2d-fine") else draw(st.sampled_from([True, True, True, False])),
+                    lam=draw(st.sampled_from(LAMBDAS)), lump=lump,
                     margin=draw(st.sampled_from([0.5, 0.9, 0.9])), rebalancing=draw(st.booleans()),
                     max_evaluations=10 ** 9, errors=errors, rng=draw(st.integers(0, 2 ** 31 - 1)))
-        if not case["lump"]:
+        if not lump:
             case["steps"] = 2
-        # 100..400 samples: seeded bulk strictly inside the domain (15% of the coordinates on grid lines) plus, in half of
-        # the cases, a few explicit samples on grid lines / on the domain boundary / duplicates
-        case["data"] = draw(data_strategy([lmax + 1] * d, 5)) if draw(st.booleans()) else []
+        # 100..400 samples: seeded bulk (15% of the coordinates on grid lines) plus a few explicit samples on grid lines /
+        # on the domain boundary / duplicates.  In the reuse flavour the bulk stays strictly inside the domain (a sample
+        # at x_d = 1 contributes nothing without boundary hats and would mask a dropped maximal sample) and the explicit
+        # samples are present in half of the cases; in the boundary flavour both may lie on the domain boundary.
+        if "boundary" in flavour or draw(st.booleans()):
+            case["data"] = draw(data_strategy([lmax + 1] * d, 5))
+        else:
+            case["data"] = []
         case["bulk"] = draw(st.sampled_from([100, 150, 200, 300, 400]))
-        case["bulk_inner"] = True
+        case["bulk_inner"] = flavour == "reuse"
         case["snap_res"] = [lmax + 1] * d
         case["labels"] = [draw(st.sampled_from([-1, 1])) for _ in case["data"]] if draw(st.booleans()) else None
         return case
-    return st.one_of(s(), s(), reuse_case())
+    return st.one_of(s(), s(), big_case())
 
 
 def sasd_fixed():
-    """one deterministic reuse run (2D, lmin 3, lmax 5: component grids of 217/225 points, three evaluations)"""
+    """deterministic runs with component grids of >= 200 basis functions (2D, lmin 3, lmax 5): one with
+    reuse_old_values=True (217/225 points, three evaluations), one with boundary=True (9x33, 17x17, 33x9 points), one with
+    both (F-C16-reuse-boundary: copied entries of b came from the wrong hat)"""
     return [dict(d=2, lmin=3, lmax=5, boundary=False, reuse=True, steps=3, lam=0.001, lump=True, margin=0.9,
                  rebalancing=False, max_evaluations=10 ** 9, errors=[0.0, 0.0, 0.0, 0.5, 1.0, 0.0, 0.0, 0.0], rng=1,
-                 data=[], bulk=200, bulk_inner=True, snap_res=[6, 6], labels=None)]
+                 data=[], bulk=200, bulk_inner=True, snap_res=[6, 6], labels=None),
+            dict(d=2, lmin=3, lmax=5, boundary=True, reuse=False, steps=2, lam=0.001, lump=False, margin=0.9,
+                 rebalancing=False, max_evaluations=10 ** 9, errors=[0.0, 0.0, 0.0, 0.5, 1.0, 0.0, 0.0, 0.0], rng=2,
+                 data=[[1.0, 0.5], [0.0, 0.0], [0.25, 1.0], [0.5, 0.5], [0.5, 0.5], [0.0, 0.71]], bulk=200,
+                 bulk_inner=False, snap_res=[6, 6], labels=[1, -1, 1, 1, -1, 1]),
+            dict(d=2, lmin=3, lmax=5, boundary=True, reuse=True, steps=2, lam=0.001, lump=True, margin=0.9,
+                 rebalancing=False, max_evaluations=10 ** 9, errors=[0.0, 0.0, 0.0, 0.5, 1.0, 0.0, 0.0, 0.0], rng=1,
+                 data=[[1.0, 0.5], [0.0, 0.0], [0.25, 1.0], [0.5, 0.5]], bulk=200, bulk_inner=False, snap_res=[6, 6],
+                 labels=None)]
 
 
 # ----------------------------------------------------------------------------------------------------------------
@@ -1285,6 +1322,11 @@ def dimwise_fixed():
              labels=[1, -1, 1, 1, -1]),
         dict(d=2, boundary=True, numeric=False, reuse=False, lam=0.0, lump=True, rng=24,
              grids=[[dict(lmin=1, splits=[1]), dict(lmin=2, splits=[0])]], data=inner, bulk=0, snap_res=[4, 4], labels=None),
+        dict(d=2, boundary=True, numeric=False, reuse=False, lam=0.001, lump=False, rng=26,
+             grids=[[dict(lmin=3, splits=[0, 2, 5, 9, 11, 3, 7, 14]), dict(lmin=4, splits=[])]], data=pts, bulk=40,
+             snap_res=[4, 4], labels=[1, -1, 1, -1, -1, 1, 1]),
+        dict(d=2, boundary=True, numeric=False, reuse=False, lam=0.1, lump=True, rng=27,
+             grids=[[dict(lmin=3, splits=[]), dict(lmin=5, splits=[])]], data=pts, bulk=40, snap_res=[3, 5], labels=None),
         dict(d=2, boundary=False, numeric=True, reuse=False, lam=0.1, lump=False, rng=25,
              grids=[[dict(lmin=1, splits=[1]), dict(lmin=1, splits=[0, 0])]], data=inner, bulk=0, snap_res=[4, 4],
              labels=None),
